@@ -162,6 +162,7 @@ func checkC10(p *Program, r *Report) {
 	r.Add("C10.scanall", mname, "every verdict is given after the output loop", hdr.Instrs[0].Pos(), dominatesAllReturns(matcher, hdr), "the loop header dominates every return: matching outputs get their outpoints inserted even when the txid already matched")
 
 	c10pushes(p, r, matcher)
+	c10loopExits(p, r, matcher)
 	// a negative verdict needs every input examined as well
 	if ihdr, _, _ := rangeLoopOver(matcher, "TxIn"); ihdr == nil {
 		r.Unresolved("C10.scanall", "loop over the transaction's inputs in "+mname)
@@ -1130,5 +1131,107 @@ func spenderIndexRule(p *Program, r *Report, rule string) {
 			}
 			return
 		}
+	}
+}
+
+// c10loopExits (mutation sweep: `continue` turned into `break` after an unparsable script or a push that is not in the
+// filter): a loop of the transaction matcher — over outputs, inputs or the pushes of one script — is left early only on
+// an edge where a membership test of the filter has just answered true.  Leaving on any other edge skips the remaining
+// pushes / inputs, one of which may be in the filter.
+func c10loopExits(p *Program, r *Report, matcher *ssa.Function) {
+	mname := FnName(matcher)
+	positive := func(cs []Cond) bool {
+		for _, c := range cs {
+			v, truth := c.V, c.Truth
+			for {
+				if u, ok := v.(*ssa.UnOp); ok && u.Op == token.NOT {
+					v, truth = u.X, !truth
+					continue
+				}
+				break
+			}
+			call, ok := v.(*ssa.Call)
+			if !ok || !truth {
+				continue
+			}
+			cal := call.Call.StaticCallee()
+			if cal != nil && p.InRepo(cal) && cal.Pkg == matcher.Pkg {
+				if b, isB := cal.Signature.Results().At(0).Type().Underlying().(*types.Basic); isB && b.Kind() == types.Bool && cal.Signature.Results().Len() == 1 {
+					return true
+				}
+			}
+		}
+		return false
+	}
+	n := 0
+	for _, h := range matcher.Blocks {
+		isHdr := false
+		for _, pr := range h.Preds {
+			if h.Dominates(pr) {
+				isHdr = true
+			}
+		}
+		if !isHdr {
+			continue
+		}
+		in := loopBlocks(matcher, h)
+		for b := range in {
+			if b == h {
+				continue
+			}
+			if _, isRet := lastInstr(b).(*ssa.Return); isRet {
+				n++
+				r.Add("C10.scanall", mname, "a loop of the matcher is left early only after a membership test answered true", p.InstrPos(lastInstr(b)), positive(MustCondsAtBlock(matcher, b)), "return inside the loop headed at "+p.Pos(p.InstrPos(h.Instrs[0])))
+				continue
+			}
+			for _, s := range b.Succs {
+				if in[s] {
+					continue
+				}
+				cs := MustCondsAtBlock(matcher, b)
+				if ec, ok := edgeCond(b, s); ok {
+					cs = append(cs, ec)
+				}
+				n++
+				r.Add("C10.scanall", mname, "a loop of the matcher is left early only after a membership test answered true", p.InstrPos(lastInstr(b)), positive(cs), "edge leaving the loop headed at "+p.Pos(p.InstrPos(h.Instrs[0]))+": the remaining pushes or inputs are not examined")
+			}
+		}
+	}
+	// the pushes of one script are walked by a real loop: the element read sits in a natural loop that starts after the
+	// script was tokenised (with `break` on both arms of the test the "loop" examines the first push only and has no
+	// back edge left)
+	for _, b := range matcher.Blocks {
+		for _, in := range b.Instrs {
+			ex, ok := in.(*ssa.Extract)
+			if !ok || ex.Index != 0 {
+				continue
+			}
+			c, ok := ex.Tuple.(*ssa.Call)
+			if !ok || !strings.HasSuffix(calleeName(&c.Call), ".PushedData") {
+				continue
+			}
+			for _, ref := range *ex.Referrers() {
+				var rb *ssa.BasicBlock
+				switch x := ref.(type) {
+				case *ssa.IndexAddr:
+					rb = x.Block()
+				case *ssa.Index:
+					rb = x.Block()
+				default:
+					continue
+				}
+				looped := false
+				for _, h := range matcher.Blocks {
+					if (b == h || b.Dominates(h)) && h != b && loopBlocks(matcher, h)[rb] && len(loopBlocks(matcher, h)) > 1 {
+						looped = true
+					}
+				}
+				n++
+				r.Add("C10.scanall", mname, "the data pushes of a script are examined one after another by a loop", ref.Pos(), looped, "the element read is not inside a loop that starts after the script was tokenised: only one push is looked at")
+			}
+		}
+	}
+	if n == 0 {
+		r.Unresolved("C10.scanall", "early exits of the loops of "+mname)
 	}
 }
